@@ -8,6 +8,7 @@ import (
 	"math"
 	"math/big"
 	"strconv"
+	"strings"
 )
 
 func c13Corpus(thorough bool) []string {
@@ -205,6 +206,26 @@ func (e c13Expect) admits(o Out) (bool, string) {
 	return false, "wrong-value"
 }
 
+// c13Literal: the spelling of v as a literal of the path language and the value the grammar assigns to
+// that spelling (an integer literal is an int64 if its magnitude fits, so -9223372036854775808 is the
+// negation of the double 2^63). ok=false for json.Number (no such literal).
+func c13Literal(v any) (text string, val any, ok bool) {
+	switch x := v.(type) {
+	case int64:
+		if x == math.MinInt64 {
+			return "-9223372036854775808", float64(math.MinInt64), true
+		}
+		return strconv.FormatInt(x, 10), x, true
+	case float64:
+		t := strconv.FormatFloat(x, 'g', -1, 64)
+		if !strings.ContainsAny(t, ".e") {
+			t += ".0"
+		}
+		return t, x, true
+	}
+	return "", nil, false
+}
+
 func c13Path(c Case) (string, map[string]any, any) {
 	a := decodeTagged(c.Extra["a"], "float64")
 	var b any
@@ -214,6 +235,22 @@ func c13Path(c Case) (string, map[string]any, any) {
 	op := c.Extra["op"]
 	mode := c.Extra["mode"]
 	switch c.Extra["delivery"] {
+	case "literal", "literal-bare":
+		la, _, _ := c13Literal(a)
+		wrap := func(t string) string {
+			if c.Extra["delivery"] == "literal" && strings.HasPrefix(t, "-") {
+				return "(" + t + ")"
+			}
+			return t
+		}
+		if b == nil {
+			if c.Extra["delivery"] == "literal" {
+				return mode + op + "(" + la + ")", nil, nil
+			}
+			return mode + op + " " + la, nil, nil
+		}
+		lb, _, _ := c13Literal(b)
+		return mode + wrap(la) + " " + op + " " + wrap(lb), nil, nil
 	case "vars":
 		if b == nil {
 			return mode + op + "$a", map[string]any{"a": a}, nil
@@ -237,6 +274,19 @@ func checkC13(c Case) *Failure {
 	var b any
 	if c.Extra["b"] != "" {
 		b = decodeTagged(c.Extra["b"], "float64")
+	}
+	if strings.HasPrefix(c.Extra["delivery"], "literal") {
+		var ok1, ok2 bool
+		_, a, ok1 = c13Literal(a)
+		ok2 = true
+		if b != nil {
+			_, b, ok2 = c13Literal(b)
+		}
+		if !ok1 || !ok2 {
+			return nil // json.Number has no literal spelling
+		}
+	}
+	if b != nil {
 		exp = c13Binary(op, a, b)
 	} else {
 		exp = c13Unary(op, a)
@@ -272,7 +322,7 @@ func checkC13(c Case) *Failure {
 }
 
 func runC13(r *Run) {
-	r.Rule("all ordered pairs of a boundary corpus (0, +-1, int32/int64 limits and neighbours, 2^53 neighbours, sqrt(2^63) neighbours, fractions, huge/tiny doubles) in each of int64 / float64 / json.Number representation x {+,-,*,/,%} and both unary operators, delivered as variables, document elements and lax-unwrapped singleton arrays, both modes; oracle: math/big exact arithmetic (integer-typed operands whose exact result fits int64 => that integer, quotient truncated or exact; otherwise the IEEE double, or a suppressible error where the exact result does not fit; never Inf/NaN, never a different integer); plus the singleton / non-numeric operand rule, and the identities -(-x)=x, x+y=y+x, x*y=y*x on the same corpus; non-trivial = every operand pair (all are distinct)")
+	r.Rule("all ordered pairs of a boundary corpus (0, +-1, int32/int64 limits and neighbours, 2^53 neighbours, sqrt(2^63) neighbours, fractions, huge/tiny doubles) in each of int64 / float64 / json.Number representation x {+,-,*,/,%} and both unary operators, delivered as variables, document elements, lax-unwrapped singleton arrays and literals of the path text (parenthesised and bare), both modes; operands that are literals followed by accessor chains (11 chains x 6 literals) on either side of every operator, against the reference; oracle: math/big exact arithmetic (integer-typed operands whose exact result fits int64 => that integer, quotient truncated or exact; otherwise the IEEE double, or a suppressible error where the exact result does not fit; never Inf/NaN, never a different integer); plus the singleton / non-numeric operand rule, and the identities -(-x)=x, x+y=y+x, x*y=y*x on the same corpus; non-trivial = every operand pair (all are distinct)")
 	corpus := c13Corpus(r.Thorough())
 	r.Bound("corpus_values", len(corpus))
 	ops := []string{"+", "-", "*", "/", "%"}
@@ -281,7 +331,7 @@ func runC13(r *Run) {
 		a, b := corpus[i/len(corpus)], corpus[i%len(corpus)]
 		for _, op := range ops {
 			for _, mode := range []string{"", "strict "} {
-				for _, del := range []string{"vars", "doc", "doc-wrapped"} {
+				for _, del := range []string{"vars", "doc", "doc-wrapped", "literal", "literal-bare"} {
 					c := Case{Rule: "binary", Extra: map[string]string{"a": a, "b": b, "op": op, "mode": mode, "delivery": del}}
 					r.evals.Add(1)
 					r.traces.Add(1)
@@ -302,7 +352,7 @@ func runC13(r *Run) {
 	for _, a := range corpus {
 		for _, op := range []string{"-", "+"} {
 			for _, mode := range []string{"", "strict "} {
-				for _, del := range []string{"vars", "doc"} {
+				for _, del := range []string{"vars", "doc", "literal", "literal-bare"} {
 					c := Case{Rule: "unary", Extra: map[string]string{"a": a, "op": op, "mode": mode, "delivery": del}}
 					r.evals.Add(1)
 					if f := checkC13(c); f != nil {
@@ -330,6 +380,23 @@ func runC13(r *Run) {
 			}
 		}
 	})
+	// operands that are literals followed by accessors (the chain is part of the operand), against the reference
+	var lps []*Expr
+	for _, l := range []*Expr{eInt(2), eInt(-3), eNum(-0.5), eInt(0), eNum(2.5), eStr("a")} {
+		for _, ch := range [][]*Expr{{sMethod("abs")}, {sMethod("ceiling")}, {sMethod("floor")}, {sMethod("type")}, {sMethod("size")}, {sMethod("double")}, {sMethod("string")},
+			{sFilter(eCmp(">", eCur(), eInt(5)))}, {sFilter(eCmp("<", eCur(), eInt(5)))}, {sIndex(sub1(eInt(0)))}, {sMethod("abs"), sMethod("ceiling")}} {
+			o := l.withSteps(ch...)
+			lps = append(lps, eNeg(o), ePos(o))
+			for _, op := range ops {
+				for _, other := range []*Expr{eInt(1), eInt(10), eNum(0.5)} {
+					lps = append(lps, eArith(op, o, other), eArith(op, other, o))
+				}
+				lps = append(lps, eArith(op, o, o))
+			}
+		}
+	}
+	r.Bound("literal_chain_operand_paths", 2*len(lps))
+	refSweep(r, "literal-chain-operands", bothModes(lps), makeDocs([]any{nil}), []sweepCfg{{Num: "float64"}})
 	// operand sequences: 0 / 2 elements / non-numeric => suppressible error; lax unwrapping of arrays
 	seqs := []string{`[]`, `[1,2]`, `"a"`, `null`, `true`, `{}`, `[[1]]`, `["a"]`, `[null]`}
 	for _, s := range seqs {
